@@ -36,7 +36,7 @@ use std::collections::HashMap;
 use std::path::PathBuf;
 use std::sync::Arc;
 
-use crate::tablefmt::{big_table, gen_run, obs_gets, table_event, table_key_catalogue, Ctx, Out, Values};
+use crate::tablefmt::{table_event_fs, big_table, gen_run, obs_gets, table_event, table_key_catalogue, Ctx, Out, Values};
 use crate::universe::Universe;
 
 const RANGE: usize = 2048;
@@ -523,9 +523,20 @@ pub fn run_filters(cfg: &FilterCfg, run_no: u64) -> (Vec<Value>, usize) {
                 number += 1;
                 tables += 1;
                 let extra = json!({"policy": if exact { "exact" } else { "bloom" }, "bits": if exact { 0 } else { bits }});
-                if let Some(t) = table_event(&u, &run, block, Some(policy), number, &mut lines, extra) {
+                if let Some((t, fs)) = table_event_fs(&u, &run, block, Some(policy), number, &mut lines, extra) {
                     let ctx = Ctx { u: &u, vals: &vals };
                     lines.push(obs_gets(&ctx, &t, &tg));
+                    // the same table read with the OTHER policy (another name: the reader has no
+                    // filter block to consult and must look into the data blocks for every key)
+                    let other: Arc<dyn FilterPolicy> = if exact {
+                        Arc::new(BloomFilterPolicy::new(bits))
+                    } else {
+                        Arc::new(ExactPolicy)
+                    };
+                    match crate::tablefmt::reopen_with_policy(&fs, block, other, number) {
+                        Ok(t2) => lines.push(obs_gets(&ctx, &t2, &tg)),
+                        Err(e) => lines.push(json!({"e": "Gets", "list": [], "err": e})),
+                    }
                 }
             }
         }
